@@ -4,6 +4,7 @@ CONSTANTS
   EnvVars <- McEnv
   QueryKinds <- McQueries
   BlockChoices <- McBlocks
+  Versions <- McVersions
 INIT Init
 NEXT Next
 CONSTRAINT McConstr
